@@ -370,6 +370,23 @@ func enumerateFaults(p C04Plan, x xfer, stream []byte) []C04Fault {
 				add("ins-empty-block", pipe.Edit{Off: off, Kind: "ins", Val: 0x02}, pipe.Edit{Off: off, Kind: "ins", Val: 0x00})
 			}
 		}
+		// a whole extra block whose data sums to zero, slipped in at a block
+		// boundary: every block checksum still holds, the transfer is longer
+		// than announced
+		for bi, off := range markers[1:] {
+			if off >= x.End {
+				continue
+			}
+			extra := [][]int{{0x02, 0x01, 0x00}, {0x02, 0x02, 0x55, 0xab}, {0x02, 0x04, 0x10, 0x20, 0x30, 0xa0}, {0x02, 0x03, 0xff, 0xff, 0x02}}[bi%4]
+			if off == markers[len(markers)-1] {
+				extra = [][]int{{0x02, 0x01, 0x00}, {0x02, 0x02, 0x55, 0xab}, {0x02, 0x04, 0x10, 0x20, 0x30, 0xa0}}[int(core.TapeAt(p.Subs, bi, 0))%3]
+			}
+			var es []pipe.Edit
+			for _, v := range extra {
+				es = append(es, pipe.Edit{Off: off, Kind: "ins", Val: v})
+			}
+			add("ins-zero-sum-block", es...)
+		}
 		if len(dataOffs) >= 2 {
 			for k, pr := range p.Pairs {
 				i := dataOffs[int(pr.I*float64(len(dataOffs)))%len(dataOffs)]
@@ -539,6 +556,8 @@ func kindClass(k string) string {
 		return "framing-byte"
 	case "ins-empty-block":
 		return "empty-block"
+	case "ins-zero-sum-block":
+		return "extra-block"
 	}
 	return "substitution"
 }
